@@ -1,7 +1,8 @@
 ------------------------------- MODULE LsDocs -------------------------------
 (* C26: bounded generator of the documents the structure-returning requests are run on.
    A document is a sequence of 1..MaxStmts statement templates (valid Lua with doc comments, multi-line
-   comments/strings, non-ASCII text, colours/links, and two syntactically broken fragments), a line
+   comments/strings, non-ASCII text -- also inside multi-line tokens, on their first / middle / last line --,
+   colours/links, and two syntactically broken fragments), a line
    terminator (LF or CR LF) and the choice of keeping the final terminator.  %E and %U stand for a 2-byte
    and an astral character (substituted by the transport; module files stay ASCII).                  *)
 EXTENDS Naturals, Sequences, TLC, Json
@@ -20,7 +21,15 @@ Templates == <<
   "local function (\n",
   "---@type A\nlocal a = A\na.x = A.f(a.x)\n",
   "local c = \"#ff0000\"\nlocal r = require(\"mod\")\n",
-  "---@enum E\nlocal E = { X = 1, Y = 2 }\n---@alias N number|string\n--- doc of **h** `code`\nlocal function h() end\n"
+  "---@enum E\nlocal E = { X = 1, Y = 2 }\n---@alias N number|string\n--- doc of **h** `code`\nlocal function h() end\n",
+  \* multi-line TOKENS with non-ASCII text (a client without multilineTokenSupport gets one piece per line, whose
+  \* length is the rest of that line in UTF-16 units, not bytes or characters): on the first, a middle and the last line
+  "--[[ %E%U a\nb %U%E b\nc %E ]]\nlocal u = 1\n",
+  "local m2 = [==[%E%Ua\n%Ub%E\nc%E]==] .. \"x\"\n",
+  \* ... on the middle line only; a short string continued with backslash-newline and \z
+  "--[[ a\n%E%U%E\nz ]] local k = \"a%E\\\n%U\\z\n  b\"\n",
+  \* ... on the first line only (comment) / on the last line only (string)
+  "--[[ %U%E\nb\nc ]]\nlocal m3 = [[\nb\n%E%U]]\n"
 >>
 NT == Len(Templates)
 
